@@ -916,3 +916,219 @@ func c32HookProbe() bool {
 	defer c32HookCalls.Unlock()
 	return c32HookCalls.enter > before
 }
+
+// ---------------------------------------------------------------- atomic part
+//
+// The staleness decision of a teardown report ("is a different connection registered for this
+// identity?") and its effect (drop the registration, notify, reschedule) must be one atomic
+// step. History: X registered; X dies and is reported twice; report 1 runs completely (real
+// code: X unregistered, owner notified); a replacement Y registers and carries frames (real
+// code); report 2 has been held at peer.disconnect.enter all along. Now the harness takes the
+// manager's read lock, shows report 2 the registration it would have seen had it run a moment
+// earlier (X) and releases it from the hook: it runs until it needs the write lock and parks
+// there (detected through the lock itself). On a tree that decides and acts under one write lock
+// it parks BEFORE looking; on a tree that looks under a read lock and acts under a later write
+// lock it parks AFTER having decided "X is the registered one". The harness then restores the
+// true registration (Y) and drops the read lock. Oracle as in the manager part: after the stale
+// report returned, Y is still registered and open, and at the following quiescent points there
+// is at most one open registered connection.
+
+func TestVerif_C32Atomic(t *testing.T) {
+	r := verifkit.Start(t, "C32", "atomic")
+	r.Rule("one case = real peer.Manager A with harness-owned remote ends; dead connection X reported twice, first report and the registration of replacement Y " +
+		"run as production code, the second report is parked at the manager's write lock after having been shown the pre-replacement registration, then the " +
+		"current registration is restored; non-trivial = a second report was parked and judged with an open replacement registered; distinct by walk")
+	if !verifhook.Enabled {
+		r.Inconclusive("verifhook not compiled in (build tag verif missing)")
+		return
+	}
+	c32InstallHooks()
+	if !c32HookProbe() {
+		r.Inconclusive("hook not reached: peer.disconnect.enter/exit are not in this tree")
+		return
+	}
+	n := r.N(80, 1500)
+	r.ParCases("park", n, 8, func(ci int, rng *verifkit.Rand) { c32AtomicCase(r, "park", ci, rng) })
+	r.Require("reports_parked_at_write_lock", 40)
+	r.Require("parked_reports_judged", 40)
+}
+
+func c32AtomicCase(r *verifkit.R, phase string, ci int, rng *verifkit.Rand) {
+	w := newC32World(r, phase, ci, rng, 4*time.Millisecond)
+	defer w.close()
+	judged := 0
+	defer func() {
+		w.mu.Lock()
+		fp := strings.Join(w.steps, ";")
+		steps := append([]string(nil), w.steps...)
+		w.mu.Unlock()
+		r.Eval(fp, judged > 0)
+		if r.NeedSample() && judged > 0 {
+			r.Sample(map[string]any{"steps": steps, "parked_reports_judged": judged})
+		}
+	}()
+	settle := func() {
+		w.waitFor("A to finish every inbound handshake", func() bool { return w.acceptsDone >= w.acceptsStarted })
+	}
+	dial := func() {
+		if rng.Bool() {
+			w.dialIn()
+		} else {
+			w.dialOut()
+		}
+		settle()
+	}
+	rounds := rng.Range(1, 3)
+	for round := 0; round < rounds && !w.broken; round++ {
+		if w.registered() == nil {
+			dial()
+			if !w.waitFor("a registered connection", func() bool { return w.mgr.GetPeer(w.idB) != nil }) {
+				return
+			}
+		}
+		w.sendOnAll(2)
+		w.check("before the kill")
+		x := w.registered()
+		if x == nil || c32Closed(x) {
+			continue
+		}
+		xs := c32Serial(x.LocalAddr())
+		w.mu.Lock()
+		mem := w.memA[xs]
+		w.holdNext[x] = 2
+		w.killed[x] = true
+		w.mu.Unlock()
+		if mem == nil {
+			continue
+		}
+		mem.FailWrites(errC32Write)
+		w.logf("writes of A on conn#%d fail; holding its second report", xs)
+		var held *c32Teardown
+		giveUp := time.Now().Add(3 * time.Second)
+		gaveUp := false
+		if !w.waitFor("the second report to reach the hook", func() bool {
+			for _, t := range w.teardowns {
+				if t.conn == x && t.nth == 2 {
+					held = t
+					return true
+				}
+			}
+			if time.Now().After(giveUp) {
+				gaveUp = true
+				return true
+			}
+			return false
+		}) {
+			return
+		}
+		if gaveUp {
+			w.mu.Lock()
+			delete(w.holdNext, x)
+			w.mu.Unlock()
+			r.Add("hold_scenarios_that_did_not_materialise", 1)
+			continue
+		}
+		if !w.waitFor("the dead connection to be unregistered by the first report", func() bool { return w.mgr.GetPeer(w.idB) != x }) {
+			return
+		}
+		if w.registered() == nil {
+			dial()
+		}
+		var y *peer.Connection
+		if !w.waitFor("a replacement connection to be registered", func() bool {
+			y = w.mgr.GetPeer(w.idB)
+			return y != nil && y != x && !c32Closed(y)
+		}) {
+			return
+		}
+		w.sendOnAll(2)
+		w.check("replacement registered, second report still held")
+		if w.broken {
+			return
+		}
+		if cur := w.registered(); cur != y || c32Closed(y) {
+			// the replacement was itself replaced/lost meanwhile (reconnector churn): not this scenario
+			close(held.release)
+			r.Add("hold_scenarios_that_did_not_materialise", 1)
+			w.waitFor("held report to finish", func() bool { select { case <-held.exited: return true; default: return false } })
+			continue
+		}
+		ys := c32Serial(y.LocalAddr())
+		w.mu.Lock()
+		callbacksBefore := len(w.discCalls)
+		w.mu.Unlock()
+		// show the second report the registration of a moment ago and let it run up to the write lock
+		peer.C32Rewind(w.mgr, w.idB, x)
+		peer.C32ReadLock(w.mgr)
+		close(held.release)
+		parked, exited := false, false
+		deadline := time.Now().Add(c32Watchdog)
+		for !parked && !exited {
+			if peer.C32WriterParked(w.mgr) {
+				parked = true
+				break
+			}
+			select {
+			case <-held.exited:
+				exited = true
+			default:
+			}
+			if time.Now().After(deadline) {
+				break
+			}
+			time.Sleep(50 * time.Microsecond)
+		}
+		// the true registration is Y again before anyone else can look
+		peer.C32RestoreWhileParked(w.mgr, w.idB, y)
+		peer.C32ReadUnlock(w.mgr)
+		if !parked && !exited {
+			r.Inconclusive("the released report neither reached the manager's write lock nor returned")
+			w.broken = true
+			return
+		}
+		if parked {
+			r.Add("reports_parked_at_write_lock", 1)
+		} else {
+			r.Add("reports_returned_without_write_lock", 1)
+		}
+		w.logf("second report of conn#%d parked=%v while conn#%d is the live registration; released", xs, parked, ys)
+		if !w.waitFor("the parked report to return", func() bool {
+			select {
+			case <-held.exited:
+				return true
+			default:
+				return false
+			}
+		}) {
+			return
+		}
+		judged++
+		r.Add("parked_reports_judged", 1)
+		now := w.mgr.GetPeer(w.idB)
+		w.mu.Lock()
+		callbacks := len(w.discCalls) - callbacksBefore
+		w.mu.Unlock()
+		if callbacks > 0 {
+			r.Add("stale_reports_that_invoked_OnPeerDisconnect(info)", 1)
+		}
+		switch {
+		case now != y:
+			w.violate("stale-report-parked-before-acting:registration-of-current-connection-removed", fmt.Sprintf(
+				"second report of dead conn#%d decided while conn#%d looked registered and acted after conn#%d had replaced it: the live registration is gone (GetPeer returns it: %v), conn#%d still open: %v, OnPeerDisconnect calls by this report: %d",
+				xs, xs, ys, now != nil, ys, !c32Closed(y), callbacks))
+			return
+		case c32Closed(y):
+			w.violate("stale-report-parked-before-acting:current-connection-closed", fmt.Sprintf("after the stale report of conn#%d the live conn#%d is closed", xs, ys))
+			return
+		}
+		// frames still flow on Y and nothing else appeared
+		w.sendOnAll(2)
+		w.check("after the parked report")
+	}
+	if !w.broken {
+		// a reconnect scheduled by a stale report would show up as a second open connection
+		time.Sleep(15 * time.Millisecond) // detection only (> reconnect MaxDelay); absence is not a verdict
+		settle()
+		w.check("end of case")
+	}
+}
